@@ -79,3 +79,110 @@ Definition tree_hash_case (a : N) (tree_hex expected_hex : string) : N :=
   | Some h => if list_eqb h (unhex expected_hex) then 0 else 1
   | None => 2
   end.
+
+(* ------------------------------------------------------------------------------------------
+   RFC 9420 section 7.9: parent hashes, verified from scratch on an exported tree.
+
+     struct { HPKEPublicKey encryption_key; opaque parent_hash<V>;
+              opaque original_sibling_tree_hash<V>; } ParentHashInput;
+
+   A non-blank parent P is parent-hash valid if, for one of its children C (S the other one),
+   some node D in the resolution of C carries parent_hash = H(ParentHashInput(P, tree hash of S
+   with P's unmerged leaves removed)) and P's unmerged leaves below C are exactly the rest of
+   the resolution of C.  The tree is valid when every non-blank parent is.  Independent of
+   parent_hash.rs. *)
+Definition par_key (p : val) : list N := match p with VCons (VBytes k) _ => k | _ => [] end.
+Definition par_ph (p : val) : list N := match p with VCons _ (VCons (VBytes h) _) => h | _ => [] end.
+Fixpoint vec_u (v : val) : list N := match v with VCons (VU n) t => n :: vec_u t | _ => [] end.
+Definition par_um (p : val) : list N := match p with VCons _ (VCons _ (VCons um _)) => vec_u um | _ => [] end.
+Fixpoint u_vec (l : list N) : val := match l with [] => VNil | n :: r => VCons (VU n) (u_vec r) end.
+Definition par_with_um (p : val) (um : list N) : val :=
+  match p with VCons k (VCons h (VCons _ rest)) => VCons k (VCons h (VCons (u_vec um) rest)) | _ => p end.
+(* parent_hash carried by a leaf (only leaves created by a commit have one) *)
+Definition leaf_ph (l : val) : option (list N) :=
+  match l with
+  | VCons _ (VCons _ (VCons _ (VCons (VEnum 3 (VBytes h)) _))) => Some h
+  | _ => None
+  end.
+Definition memN (x : N) (l : list N) : bool := existsb (N.eqb x) l.
+
+Section PH.
+  Variable H : hash_alg.
+  Variable nodes : list val.
+
+  (* tree hash of the subtree (k, j) with the leaves in [excl] removed (blank, and dropped from
+     every unmerged list) *)
+  Fixpoint tree_hash_excl (excl : list N) (k : nat) (j : N) : option (list N) :=
+    match k with
+    | O => let b := if memN j excl then Some [0] else opt_leaf_bytes nodes (2 * j) in
+           match b with Some b => Some (h_fun H ([1] ++ u32be j ++ b)) | None => None end
+    | S k' =>
+        let pb := match node_at nodes (node_pos (N.of_nat k) j) with
+                  | VNone => Some [0]
+                  | VSome (VEnum 2 p) =>
+                      match encode T_Parent (par_with_um p (filter (fun l => negb (memN l excl)) (par_um p))) with
+                      | Some b => Some (1 :: b) | None => None end
+                  | _ => None
+                  end in
+        match pb, tree_hash_excl excl k' (2 * j), tree_hash_excl excl k' (2 * j + 1) with
+        | Some b, Some l, Some r => Some (h_fun H ([2] ++ b ++ vbytes l ++ vbytes r))
+        | _, _, _ => None
+        end
+    end.
+
+  (* resolution of the subtree (k, j) as node indices *)
+  Fixpoint reso_nodes (k : nat) (j : N) : list N :=
+    let x := node_pos (N.of_nat k) j in
+    match node_at nodes x with
+    | VSome (VEnum 1 _) => [x]
+    | VSome (VEnum 2 p) => x :: map (fun l => 2 * l) (par_um p)
+    | _ => match k with O => [] | S k' => reso_nodes k' (2 * j) ++ reso_nodes k' (2 * j + 1) end
+    end.
+
+  Definition node_parent_hash (x : N) : option (list N) :=
+    match node_at nodes x with
+    | VSome (VEnum 1 l) => leaf_ph l
+    | VSome (VEnum 2 p) => Some (par_ph p)
+    | _ => None
+    end.
+
+  Fixpoint remove1 (x : N) (l : list N) : list N :=
+    match l with [] => [] | y :: r => if x =? y then r else y :: remove1 x r end.
+  Fixpoint same_set (a b : list N) : bool :=
+    match a with
+    | [] => match b with [] => true | _ => false end
+    | x :: r => memN x b && same_set r (remove1 x b)
+    end.
+
+  (* P = node (S k', j); C = child (k', jc), S = child (k', js) *)
+  Definition valid_via (p : val) (k' : nat) (jc js : N) : bool :=
+    match tree_hash_excl (par_um p) k' js with
+    | None => false
+    | Some sh =>
+        let expect := h_fun H (vbytes (par_key p) ++ vbytes (par_ph p) ++ vbytes sh) in
+        let res := reso_nodes k' jc in
+        let um_below := map (fun l => 2 * l) (filter (fun l => l / 2 ^ N.of_nat k' =? jc) (par_um p)) in
+        existsb (fun d => match node_parent_hash d with
+                          | Some h => list_eqb h expect && same_set (remove1 d res) um_below
+                          | None => false end) res
+    end.
+
+  Fixpoint all_parents_valid (k : nat) (j : N) : bool :=
+    match k with
+    | O => true
+    | S k' =>
+        (match node_at nodes (node_pos (N.of_nat k) j) with
+         | VSome (VEnum 2 p) => valid_via p k' (2 * j) (2 * j + 1) || valid_via p k' (2 * j + 1) (2 * j)
+         | _ => true
+         end) && all_parents_valid k' (2 * j) && all_parents_valid k' (2 * j + 1)
+    end.
+End PH.
+
+(* 0 = every non-blank parent is parent-hash valid; 1 = some parent is not; 2 = undecodable *)
+Definition parent_hash_case (a : N) (tree_hex : string) : N :=
+  match export_nodes (unhex tree_hex) with
+  | Some nodes =>
+      let leaves := N.of_nat (List.length nodes) / 2 + 1 in
+      if all_parents_valid (alg a) nodes (depth_for 40 0 leaves) 0 then 0 else 1
+  | None => 2
+  end.
